@@ -16,6 +16,7 @@ Decided:
     read-only flag and flush gating are C08.H4.
  K8 descriptor flags exactly extra|direction for every previous slot content (C01.F1).  K9 refused polls change nothing,
     a successful poll consumes the head of the used ring (C03.E1/E2).  K10 capacity table (C03.E3).
+ K13 completions keep being seen across the 16-bit index wrap (= C03.E5 / E9).  K14 a blocking request pops its own token (= C03.E8).
 Not decided: data integrity and matching of out-of-order completions over histories (delegated to the queue properties).
 """
 from .common import *
